@@ -302,10 +302,13 @@ def configs(tier: str, seed: int) -> List[Dict[str, Any]]:
         for b in ("s3", "local"):
             for clock in ("TICK", "FROZEN"):
                 for tr in triples:
-                    add(b, "separate", clock, tr, bound=2)
-                    add(b, "shared", clock, tr, bound=2)
-        add("s3", "separate", "TICK", ("append", "append", "append", "append"), bound=1)
-        add("local", "separate", "FROZEN", ("append", "delete_snap_first", "expire", "append"), bound=1)
+                    add(b, "separate", clock, tr, bound=1)
+                    add(b, "shared", clock, tr, bound=1)
+        # deeper bound on the two most contended triples
+        add("s3", "separate", "TICK", ("append", "append", "append"), bound=2)
+        add("local", "shared", "FROZEN", ("append", "delete_snap_first", "expire"), bound=2)
+        add("s3", "separate", "TICK", ("append", "append", "append", "append"), bound=0)
+        add("local", "separate", "FROZEN", ("append", "delete_snap_first", "expire", "append"), bound=0)
     return out
 
 
